@@ -1,6 +1,7 @@
 import JominiModel.Proofs.Date
 import JominiModel.Proofs.DateFast
 import JominiModel.Proofs.DateFmt
+import JominiModel.Proofs.DateArith
 import JominiModel.Generated.Tables
 /-
 C13 — Date codecs are mutually inverse and date arithmetic is consistent.
@@ -216,5 +217,190 @@ theorem C13_iso (y : Int) (m d h : Nat) (hy : inI16 y = true) (hv : ValidRaw m d
   exact ⟨fmtInt_small 2 (Or.inr rfl) (h - 1) (by omega), by omega⟩
 
 example : format (mkRaw 1936 1 1 24) .iso8601 = .ok [49, 57, 51, 54, 45, 48, 49, 45, 48, 49, 84, 50, 51] := by decide
+
+/-! ### arithmetic -/
+
+/-- **`add_days` and `days_until` are inverse** whenever the new day number `days + n` does not
+fall strictly between −365 and 0 (the computation stays on one side of year 0; the start date
+may be on either side) and the resulting year is an `i16` (otherwise `add_days` panics, as
+documented).  `daysOf` is the day number `365·y ± ordinal` of Spec/Date.lean. -/
+theorem C13_add_days (y : Int) (m d : Nat) (n : Int) (hv : ValidMd m d)
+    (hside : 0 ≤ daysOf y m d + n ∨ daysOf y m d + n ≤ -365)
+    (hfit : inI16 ((daysOf y m d + n).tdiv 365) = true) :
+    ((mkDate y m d).addDays n).bind (fun r => (mkDate y m d).daysUntil r) = .ok n := by
+  rw [addDays_then_until y hv n hfit, if_pos hside]
+  congr 1
+  omega
+
+example : ((mkDate 1400 1 1).addDays 729).bind (fun r => (mkDate 1400 1 1).daysUntil r) = .ok 729 := by decide
+example : ((mkDate (-3) 6 3).addDays 1) = .ok (mkDate (-3) 6 2) ∧
+    ((mkDate (-3) 6 3).addDays 1).bind (fun r => (mkDate (-3) 6 3).daysUntil r) = .ok 1 := by decide
+
+/-- **the hypothesis of `C13_add_days` is necessary**: when the new day number falls into the band
+`−365 < days + n < 0` the date lands in year 0 with the sign of the day number lost, and
+`days_until` returns `n − 2·(days + n) ≠ n`. -/
+theorem C13_add_days_band (y : Int) (m d : Nat) (n : Int) (hv : ValidMd m d)
+    (hband : -365 < daysOf y m d + n ∧ daysOf y m d + n < 0) :
+    ∃ k, ((mkDate y m d).addDays n).bind (fun r => (mkDate y m d).daysUntil r) = .ok k ∧ k ≠ n := by
+  have hq : (daysOf y m d + n).tdiv 365 = 0 := by
+    have := Int.tdiv_eq_ediv (a := daysOf y m d + n) (b := 365)
+    have hs : Int.sign 365 = 1 := rfl
+    rw [hs] at this
+    split at this <;> omega
+  have hfit : inI16 ((daysOf y m d + n).tdiv 365) = true := by rw [hq]; decide
+  refine ⟨_, addDays_then_until y hv n hfit, ?_⟩
+  rw [if_neg (by omega)]
+  omega
+
+example : ((mkDate 1 1 1).addDays (-366)) = .ok (mkDate 0 1 2) ∧
+    ((mkDate 1 1 1).addDays (-366)).bind (fun r => (mkDate 1 1 1).daysUntil r) = .ok (-364) := by decide
+
+/-- `add_days` panics exactly when the result is not representable (documented behaviour). -/
+theorem C13_add_days_panics (y : Int) (m d : Nat) (n : Int) (hv : ValidMd m d) :
+    (mkDate y m d).addDays n = .panic ↔
+      ¬ (inI32 (daysOf y m d + n) = true ∧ inI16 ((daysOf y m d + n).tdiv 365) = true) := by
+  rw [Date.addDays_mk y hv n]
+  by_cases h : inI32 (daysOf y m d + n) = true ∧ inI16 ((daysOf y m d + n).tdiv 365) = true
+  · rw [if_pos h]
+    have hlt := Int.tmod_lt_of_pos (daysOf y m d + n) (b := 365) (by omega)
+    have hgt : -365 < (daysOf y m d + n).tmod 365 := by
+      have := Int.tmod_eq_emod (a := daysOf y m d + n) (b := 365)
+      have h2 := Int.emod_nonneg (daysOf y m d + n) (b := 365) (by omega)
+      rw [this]; split <;> simp <;> omega
+    obtain ⟨m', d', hmd, _, _⟩ :=
+      monthDayFromJulian_spec (((daysOf y m d + n).tmod 365).natAbs : Nat) (by omega) (by omega)
+    rw [hmd]
+    simp [h]
+  · rw [if_neg h]; simp [h]
+
+/-- **ordering agrees with the sign of `days_until`** for years ≥ 1 (indeed ≥ 0):
+`a < b ⇔ a.days_until(b) > 0`, `a = b ⇔ … = 0`, `a > b ⇔ … < 0`. -/
+theorem C13_ord (y1 y2 : Int) (m1 d1 m2 d2 : Nat) (hy1 : 1 ≤ y1) (hy2 : 1 ≤ y2)
+    (h1 : ValidMd m1 d1) (h2 : ValidMd m2 d2) :
+    ∃ n, (mkDate y1 m1 d1).daysUntil (mkDate y2 m2 d2) = .ok n ∧
+      (mkDate y1 m1 d1).cmp (mkDate y2 m2 d2) = compare 0 n := by
+  refine ⟨_, Date.daysUntil_mk y1 h1 y2 h2, ?_⟩
+  rw [cmp_eq_compare_days y1 y2 (by omega) (by omega) h1 h2]
+  rcases Int.lt_trichotomy (daysOf y1 m1 d1) (daysOf y2 m2 d2) with h | h | h
+  · rw [Int.compare_eq_lt.2 h, Int.compare_eq_lt.2 (by omega)]
+  · rw [Int.compare_eq_eq.2 h, Int.compare_eq_eq.2 (by omega)]
+  · rw [Int.compare_eq_gt.2 h, Int.compare_eq_gt.2 (by omega)]
+
+example : (mkDate 1457 3 4).cmp (mkDate 1457 3 5) = .lt ∧
+    (mkDate 1457 3 4).daysUntil (mkDate 1457 3 5) = .ok 1 := by decide
+
+/-- the bound on the years is necessary: before year 0 the day numbers run backwards. -/
+theorem C13_ord_needs_positive_years :
+    (mkDate (-1) 1 1).cmp (mkDate (-1) 1 2) = .lt ∧
+    (mkDate (-1) 1 1).daysUntil (mkDate (-1) 1 2) = .ok (-1) := by decide
+
+/-! ### what the parsers accept, and only that -/
+
+/-- **exact grammar of the component parser** (`ExpandedRawDate::parse`, shared by all four
+types), as an iff: the integer prefix parser (`scalar::to_i64_t`, property C11) reads a number;
+then either nothing is left and the number is decoded as the binary form, or what is left is
+exactly `.M.D` or `.M.D.H` — each component one or two ASCII digits, `H` not zero — the number
+fits an `i16`, and the result carries exactly those components.  Anything else (a third digit,
+a foreign byte, a trailing byte, an empty component) is refused. -/
+theorem C13_rejects_grammar (s : Bytes) (e : Expanded) :
+    Expanded.parse s = .ok e ↔
+      ∃ v rest, Scalar.toI64T s = .ok (v, rest) ∧
+        ((rest = [] ∧ inI32 v = true ∧ Expanded.fromBinary v = .ok e) ∨
+         (rest ≠ [] ∧ inI16 v = true ∧ e.year = v ∧ IsRestText rest e.month e.day e.hour)) :=
+  Expanded.parse_iff s e
+
+example : IsRestText [46, 49, 49, 46, 51, 48] 11 30 0 :=
+  ⟨[49, 49], [51, 48], Or.inr ⟨49, 49, rfl, by decide, by decide, rfl⟩, Or.inr ⟨51, 48, rfl, by decide, by decide, rfl⟩,
+    Or.inl ⟨rfl, rfl⟩⟩
+
+/-- **the typed constructors accept exactly their calendar**: `Date` days 1..days-in-month of
+months 1..12 (measured table, `C13_tables`), `DateHour` additionally hours 1..24, `UniformDate`
+days 1..30, `RawDate` days 1..31 and hours 0..24 — everything else is `None`, never a panic. -/
+theorem C13_rejects_constructors (y : Int) (m d h : Nat) :
+    Date.fromYmdOpt y m d = (if ValidMd m d then .ok (mkDate y m d) else .err) ∧
+    DateHour.fromYmdhOpt y m d h = (if ValidMd m d ∧ ValidHour h then .ok (mkDateHour y m d h) else .err) ∧
+    UniformDate.fromYmdOpt y m d = (if ValidUniformMd m d then .ok (mkUniform y m d) else .err) ∧
+    RawDate.fromYmdhOpt y m d h = (if ValidRaw m d h then .ok (mkRaw y m d h) else .err) :=
+  ⟨Date.fromYmdOpt_eq y m d, DateHour.fromYmdhOpt_eq y m d h, UniformDate.fromYmdOpt_eq y m d,
+    RawDate.fromYmdhOpt_eq y m d h⟩
+
+/-- **a typed parser returns only dates of its calendar, with the components the text has**:
+whatever `Date::parse` / `DateHour::parse` / `UniformDate::parse` accept went through the
+component parser (`C13_rejects_grammar`) and the constructor (`C13_rejects_constructors`):
+month 0/13+, a day the calendar lacks, hour 0/25+ (or an hour on a `Date`) are refused. -/
+theorem C13_rejects_typed (s : Bytes) :
+    (∀ x, Date.parse s = .ok x → ∃ e, Expanded.parse s = .ok e ∧ e.hour = 0 ∧ ValidMd e.month e.day ∧
+        x = mkDate e.year e.month e.day) ∧
+    (∀ x, DateHour.parse s = .ok x → ∃ e, Expanded.parse s = .ok e ∧ ValidHour e.hour ∧ ValidMd e.month e.day ∧
+        x = mkDateHour e.year e.month e.day e.hour) ∧
+    (∀ x, UniformDate.parse s = .ok x → ∃ e, Expanded.parse s = .ok e ∧ e.hour = 0 ∧
+        ValidUniformMd e.month e.day ∧ x = mkUniform e.year e.month e.day) := by
+  refine ⟨?_, ?_, ?_⟩
+  · intro x hx
+    rw [Date.parse_eq] at hx
+    split at hx
+    · cases hx
+    · unfold Date.fallback at hx
+      cases he : Expanded.parse s with
+      | ok e =>
+        rw [he] at hx
+        simp only [Out.bind_ok, Date.fromExpanded] at hx
+        split at hx
+        · cases hx
+        · rename_i h0
+          rw [Date.fromYmdOpt_eq] at hx
+          split at hx
+          · rename_i hv
+            cases hx
+            exact ⟨e, rfl, by simpa using h0, hv, rfl⟩
+          · cases hx
+      | err => rw [he] at hx; cases hx
+      | panic => rw [he] at hx; cases hx
+  · intro x hx
+    unfold DateHour.parse at hx
+    cases he : Expanded.parse s with
+    | ok e =>
+      rw [he] at hx
+      simp only [Out.bind_ok, DateHour.fromExpanded, DateHour.fromYmdhOpt_eq] at hx
+      split at hx
+      · rename_i hv
+        cases hx
+        exact ⟨e, rfl, hv.2, hv.1, rfl⟩
+      · cases hx
+    | err => rw [he] at hx; cases hx
+    | panic => rw [he] at hx; cases hx
+  · intro x hx
+    unfold UniformDate.parse at hx
+    cases he : Expanded.parse s with
+    | ok e =>
+      rw [he] at hx
+      simp only [Out.bind_ok, UniformDate.fromExpanded] at hx
+      split at hx
+      · cases hx
+      · rename_i h0
+        rw [UniformDate.fromYmdOpt_eq] at hx
+        split at hx
+        · rename_i hv
+          cases hx
+          exact ⟨e, rfl, by simpa using h0, hv, rfl⟩
+        · cases hx
+    | err => rw [he] at hx; cases hx
+    | panic => rw [he] at hx; cases hx
+
+example : Date.parse [49, 52, 52, 52, 46, 49, 51, 46, 49] = .err ∧            -- 1444.13.1
+    Date.parse [49, 52, 52, 52, 46, 50, 46, 50, 57] = .err ∧                    -- 1444.2.29
+    Date.parse [49, 52, 52, 52, 46, 49, 49, 46, 49, 49, 120] = .err ∧           -- 1444.11.11x
+    DateHour.parse [49, 46, 49, 46, 49, 46, 50, 53] = .err ∧                    -- 1.1.1.25
+    DateHour.parse [49, 46, 49, 46, 49, 46, 48] = .err ∧                        -- 1.1.1.0
+    UniformDate.parse [49, 46, 49, 46, 51, 49] = .err := by decide              -- 1.1.31
+
+/-- **no text parser panics**, for any byte string. -/
+theorem C13_no_panic_parse (s : Bytes) :
+    Date.parse s ≠ .panic ∧ DateHour.parse s ≠ .panic ∧ UniformDate.parse s ≠ .panic ∧
+    RawDate.parse s ≠ .panic :=
+  ⟨Date.parse_ne_panic s,
+   bind_ne_panic (Expanded.parse_ne_panic s) DateHour.fromExpanded_ne_panic,
+   bind_ne_panic (Expanded.parse_ne_panic s) UniformDate.fromExpanded_ne_panic,
+   RawDate.parse_ne_panic s⟩
 
 end Jomini.Props.C13
